@@ -136,7 +136,8 @@ def analyse(ctx, case, run, S):
         ctx.expect(la == lb and a == b, 'C14:not-reproducible', '%s: identical runs produce different proofs' % case['name'], cfg, None)
     else:
         ctx.expect(not (a & b), 'C14:nonce-shared:' + case['pairname'].split(',')[0].split(' (')[0],
-                   '%s: the two runs share the nonces %s' % (case['name'], sorted(k for k, v in used[0].items() if v in b)[:4]), cfg, 'nonce_hedge_broken', rcfg)
+                   '%s: the two runs share the nonces %s' % (case['name'], sorted(k for k, v in used[0].items() if v in b)[:4]), cfg,
+                   'nonce_shared_generators' if 'blinding generator' in case['pairname'] else 'nonce_hedge_broken', rcfg)
     if len(ctx.case_samples) < 2:
         ctx.case_samples.append({'scenario': cfg, 'rng_nonces_run0': used[0]})
 
